@@ -532,13 +532,19 @@ func checkLoaderPipeline(w *World, r *Report) {
 			}
 			callsDec := false
 			var storer *ssa.Function
+			// (a function that applies the defaults rewrites the entries of its own receiver's map: not the merge)
+			isDefaults := func(g *ssa.Function) bool { return w.storesField(g, "PipelineDef", "Concurrency") }
 			for _, g := range calleesIn(e) {
 				if g == ld {
 					callsDec = true
 				}
-				if len(storesIn(g)) > 0 {
+				if len(storesIn(g)) > 0 && !isDefaults(g) {
 					storer = g
 				}
+			}
+			// the entry stores into the merged map itself, after calling the decoder
+			if storer == nil && len(storesIn(e)) > 0 && !isDefaults(e) {
+				storer = e
 			}
 			if callsDec && storer != nil {
 				splits = append(splits, split{e, ld, storer})
@@ -548,7 +554,7 @@ func checkLoaderPipeline(w *World, r *Report) {
 		// the decoder itself hands every decoded pipeline to a storing helper of the same receiver
 		if !found {
 			for _, g := range calleesIn(ld) {
-				if g != ld && len(storesIn(g)) > 0 {
+				if g != ld && len(storesIn(g)) > 0 && !w.storesField(g, "PipelineDef", "Concurrency") {
 					splits = append(splits, split{ld, ld, g})
 					found = true
 				}
@@ -616,6 +622,10 @@ func checkLoaderPipeline(w *World, r *Report) {
 					}
 				})
 				okD = allSucc && decCall != nil && stCall != nil && instrDominates(decCall, stCall)
+				if sp.storer == sp.entry {
+					// the entry stores itself: the decoder call (which applied the defaults) dominates the store
+					okD = allSucc && decCall != nil && instrDominates(decCall, mu)
+				}
 			}
 			if !okD {
 				// … or the storing function applies the default itself: every path to the store has
